@@ -421,6 +421,344 @@ pub fn apply(s: &StyleSpec) -> Style {
 }
 
 // ---------------------------------------------------------------------------------------
+// setter histories: reaching a style through a SEQUENCE of public setter calls on live objects
+//
+// `apply` hands finished objects to `set_font`/`set_fill`/...  Real callers usually edit in
+// place: `style.get_font_mut().get_color_mut().set_argb(..)`, often on a style, font, fill or
+// colour object that already carries something else.  `apply_in_place` writes EVERY projected
+// attribute of the target spec through the `get_*_mut()` accessors of a live `Style`, so that
+// whatever earlier calls left behind must not show: the expectation stays `expected(target)`.
+//
+// Only call paths whose overwrite semantics the API itself promises are used (checked on the
+// unmodified tree: zero pre-save mismatches over all seeds / tiers):
+//  * component absent in the target -> `remove_font/fill/borders/alignment/numbering_format/
+//    protection`;
+//  * scalar attributes -> their setter with the target value, or with the format default when
+//    the target leaves it absent (N2: `set_bold(false)`, `set_underline("none")`,
+//    `set_pattern_type(None)`, `set_border_style("none")`, `set_text_rotation(0)` ...);
+//  * colours -> `set_argb` / `set_theme_index` / `set_indexed` on the SAME `Color` object
+//    (each of them documents by its code that it clears the other two kinds); the tint is not
+//    touched by those setters, so it is always written explicitly (`set_tint(t)` or
+//    `set_tint(0.0)` = no tint, N2); "no colour" -> `set_color(Color::default())` /
+//    `remove_foreground_color()` / `remove_background_color()`;
+//  * fill kind -> `get_pattern_fill_mut()` / `get_gradient_fill_mut()` (each creates its kind
+//    and drops the other one); gradient stops are cleared and pushed again;
+//  * number format -> `set_number_format_id` / `set_format_code` on the same object.
+// NOT used on the target (an earlier call legitimately changes the meaning of a later one):
+// `PatternFill::set_foreground_color` (rewrites the pattern type), `Style::
+// set_background_color*` (keeps a tint the previous colour had).  They ARE used to build the
+// prior state, where only "something was there before" matters.
+
+/// How the `Style` value of a spec is reached.
+#[derive(Debug, Clone, Serialize, Deserialize, PartialEq, Default)]
+pub enum Hist {
+    /// `apply`: finished component objects handed to `set_font` / `set_fill` / ...
+    #[default]
+    Plain,
+    /// `apply_in_place` on a fresh `Style::default()` (accessors create the default components)
+    InPlace,
+    /// first the prior spec in place (+ `conv`enience calls), then the target in place, on the
+    /// same live objects
+    Over { prior: Box<StyleSpec>, conv: u8 },
+}
+
+fn set_color_in_place(c: &mut Color, t: &ColorSpec) {
+    match &t.kind {
+        ColorKind::Argb(s) => {
+            c.set_argb(s.clone());
+        }
+        ColorKind::Theme(n) => {
+            c.set_theme_index(*n);
+        }
+        ColorKind::Indexed(n) => {
+            c.set_indexed(*n);
+        }
+    }
+    match &t.tint {
+        Some(x) => {
+            c.set_tint(x.0);
+        }
+        None => {
+            if *c.get_tint() != 0.0 {
+                c.set_tint(0.0);
+            }
+        }
+    }
+}
+
+fn edge_in_place(b: &mut Border, e: &EdgeSpec) {
+    b.set_border_style(e.style.map_or("none", |s| BORDER_STYLES[s as usize % BORDER_STYLES.len()]));
+    match &e.color {
+        Some(c) => set_color_in_place(b.get_color_mut(), c),
+        None => {
+            b.set_color(Color::default());
+        }
+    }
+}
+
+/// Write every projected attribute of `s` onto the live `st` through the `get_*_mut()`
+/// accessors (see the block comment above).
+pub fn apply_in_place(st: &mut Style, s: &StyleSpec) {
+    match &s.font {
+        None => {
+            st.remove_font();
+        }
+        Some(f) => {
+            let font = st.get_font_mut();
+            font.set_name(f.name.clone());
+            font.set_size(f.size.0);
+            if let Some(v) = f.family {
+                font.set_family(v);
+            }
+            font.set_bold(f.bold.unwrap_or(false));
+            font.set_italic(f.italic.unwrap_or(false));
+            let u = UNDERLINES[f.underline as usize % UNDERLINES.len()];
+            font.set_underline(if u.is_empty() { "none" } else { u });
+            font.set_strikethrough(f.strike.unwrap_or(false));
+            match &f.color {
+                Some(c) => set_color_in_place(font.get_color_mut(), c),
+                None => {
+                    font.set_color(Color::default());
+                }
+            }
+            if let Some(v) = f.vert_align {
+                let val = match v % 3 {
+                    1 => VerticalAlignmentRunValues::Baseline,
+                    2 => VerticalAlignmentRunValues::Superscript,
+                    _ => VerticalAlignmentRunValues::Subscript,
+                };
+                font.get_vertical_text_alignment_mut().set_val(val);
+            }
+            if let Some(v) = f.charset {
+                font.set_charset(v);
+            }
+            if let Some(v) = f.scheme {
+                font.set_scheme(["none", "major", "minor"][v as usize % 3]);
+            }
+        }
+    }
+    match &s.fill {
+        None => {
+            st.remove_fill();
+        }
+        Some(FillSpec { gradient: Some(g), .. }) => {
+            let gf = st.get_fill_mut().get_gradient_fill_mut();
+            gf.set_degree(g.degree.0);
+            gf.get_gradient_stop_mut().clear();
+            for (pos, col) in &g.stops {
+                let mut stop = GradientStop::default();
+                stop.set_position(pos.0);
+                if let Some(c) = col {
+                    set_color_in_place(stop.get_color_mut(), c);
+                }
+                gf.set_gradient_stop(stop);
+            }
+        }
+        Some(f) => {
+            let pf = st.get_fill_mut().get_pattern_fill_mut();
+            pf.set_pattern_type(PatternValues::from_str(f.pattern.map_or("none", |p| PATTERNS[p as usize % PATTERNS.len()])).unwrap());
+            match &f.fg {
+                Some(c) => set_color_in_place(pf.get_foreground_color_mut(), c),
+                None => {
+                    pf.remove_foreground_color();
+                }
+            }
+            match &f.bg {
+                Some(c) => set_color_in_place(pf.get_background_color_mut(), c),
+                None => {
+                    pf.remove_background_color();
+                }
+            }
+        }
+    }
+    match &s.borders {
+        None => {
+            st.remove_borders();
+        }
+        Some(b) => {
+            let bs = st.get_borders_mut();
+            edge_in_place(bs.get_left_mut(), &b.left);
+            edge_in_place(bs.get_right_mut(), &b.right);
+            edge_in_place(bs.get_top_mut(), &b.top);
+            edge_in_place(bs.get_bottom_mut(), &b.bottom);
+            edge_in_place(bs.get_diagonal_mut(), &b.diagonal);
+            bs.set_diagonal_up(b.diag_up.unwrap_or(false));
+            bs.set_diagonal_down(b.diag_down.unwrap_or(false));
+        }
+    }
+    match &s.align {
+        None => {
+            st.remove_alignment();
+        }
+        Some(a) => {
+            let al = st.get_alignment_mut();
+            al.set_horizontal(HorizontalAlignmentValues::from_str(a.horizontal.map_or("general", |h| HORIZONTALS[h as usize % HORIZONTALS.len()])).unwrap());
+            al.set_vertical(VerticalAlignmentValues::from_str(a.vertical.map_or("bottom", |v| VERTICALS[v as usize % VERTICALS.len()])).unwrap());
+            al.set_wrap_text(a.wrap.unwrap_or(false));
+            al.set_text_rotation(a.rotation.unwrap_or(0));
+        }
+    }
+    match &s.numfmt {
+        None => {
+            st.remove_numbering_format();
+        }
+        Some(n) => {
+            let nf = st.get_numbering_format_mut();
+            match n {
+                NumFmtSpec::Builtin(id) => {
+                    nf.set_number_format_id(*id);
+                }
+                NumFmtSpec::Code(c) => {
+                    nf.set_format_code(c.clone());
+                }
+            }
+        }
+    }
+    match &s.prot {
+        None => {
+            st.remove_protection();
+        }
+        Some(p) => {
+            let pr = st.get_protection_mut();
+            pr.set_locked(p.locked);
+            pr.set_hidden(p.hidden);
+        }
+    }
+}
+
+/// Convenience calls that leave state behind (only ever used BEFORE the target is written).
+pub fn leave_state(st: &mut Style, conv: u8) {
+    const PAL: [&str; 4] = ["FFFF0000", "FFFFFF00", "FF000000", "FFFFFFFF"]; // palette colours
+    if conv & 1 != 0 {
+        st.set_background_color(PAL[(conv >> 4) as usize % 4]);
+    }
+    if conv & 2 != 0 {
+        st.get_font_mut().get_color_mut().set_argb(PAL[(conv >> 5) as usize % 4]);
+    }
+    if conv & 4 != 0 {
+        let b = st.get_borders_mut().get_bottom_mut();
+        b.set_border_style("thin");
+        b.get_color_mut().set_argb(PAL[(conv >> 6) as usize % 4]);
+    }
+    if conv & 8 != 0 {
+        st.set_background_color_with_pattern("FF00FF00", "FF0000FF", PatternValues::DarkGrid);
+    }
+}
+
+/// The `Style` value of `target`, reached the way `hist` says.
+pub fn build_style(target: &StyleSpec, hist: &Hist) -> Style {
+    match hist {
+        Hist::Plain => apply(target),
+        Hist::InPlace => {
+            let mut st = Style::default();
+            apply_in_place(&mut st, target);
+            st
+        }
+        Hist::Over { prior, conv } => {
+            let mut st = Style::default();
+            apply_in_place(&mut st, prior);
+            leave_state(&mut st, *conv);
+            apply_in_place(&mut st, target);
+            st
+        }
+    }
+}
+
+fn flip_color(c: &Option<ColorSpec>, v: u8) -> Option<ColorSpec> {
+    // another KIND than the target's: palette argb / arbitrary argb / theme / indexed, with a
+    // tint where the target has none
+    let tint = match c {
+        Some(ColorSpec { tint: None, .. }) | None => Some(Num(0.5)),
+        _ => None,
+    };
+    let kind = match (c.as_ref().map(|c| &c.kind), v % 3) {
+        (Some(ColorKind::Argb(s)), 0) if palette_index(s).is_none() => ColorKind::Argb("FFFF0000".to_string()),
+        (Some(ColorKind::Argb(_)), 0) => ColorKind::Argb("FF13579B".to_string()),
+        (Some(ColorKind::Argb(_)), 1) => ColorKind::Theme(4),
+        (Some(ColorKind::Argb(_)), _) => ColorKind::Indexed(2),
+        (Some(ColorKind::Theme(_)), 0) => ColorKind::Indexed(5),
+        (Some(ColorKind::Theme(_)), _) => ColorKind::Argb("FFFFFF00".to_string()),
+        (Some(ColorKind::Indexed(_)), 0) => ColorKind::Theme(3),
+        (Some(ColorKind::Indexed(_)), _) => ColorKind::Argb("FF2468AC".to_string()),
+        (None, 0) => ColorKind::Argb("FFFF0000".to_string()),
+        (None, 1) => ColorKind::Theme(5),
+        (None, _) => ColorKind::Indexed(3),
+    };
+    Some(ColorSpec { kind, tint })
+}
+
+fn palette_index(argb: &str) -> Option<u32> {
+    (0u32..64).find(|i| palette(*i) == argb)
+}
+
+/// A prior state made to clash with `target` in every component: each component is present,
+/// every colour has another kind (and a tint where the target has none), the fill has the
+/// other fill kind (pattern <-> gradient), border styles / alignment / protection differ, the
+/// number format is built-in where the target's is custom and vice versa.
+pub fn clash(target: &StyleSpec, v: u8) -> StyleSpec {
+    let mut p = target.clone();
+    let f = p.font.get_or_insert_with(default_font_spec);
+    f.name = if f.name == "Arial" { "Calibri".to_string() } else { "Arial".to_string() };
+    f.size = Num(if f.size.0 == 20.0 { 21.0 } else { 20.0 });
+    f.bold = Some(!f.bold.unwrap_or(false));
+    f.italic = Some(!f.italic.unwrap_or(false));
+    f.underline = if f.underline == 2 { 1 } else { 2 };
+    f.strike = Some(!f.strike.unwrap_or(false));
+    f.color = flip_color(&f.color, v);
+    let tf = target.fill.clone().unwrap_or(FillSpec { pattern: None, fg: None, bg: None, gradient: None });
+    p.fill = Some(if tf.gradient.is_some() {
+        FillSpec { pattern: Some(1 + v % 18), fg: flip_color(&None, v), bg: flip_color(&None, v.wrapping_add(1)), gradient: None }
+    } else if v % 2 == 0 {
+        FillSpec {
+            pattern: None,
+            fg: None,
+            bg: None,
+            gradient: Some(GradSpec { degree: Num(90.0), stops: vec![(Num(0.0), flip_color(&tf.fg, v)), (Num(1.0), flip_color(&tf.bg, v))] }),
+        }
+    } else {
+        FillSpec { pattern: Some(if tf.pattern == Some(1) { 4 } else { 1 }), fg: flip_color(&tf.fg, v), bg: flip_color(&tf.bg, v), gradient: None }
+    });
+    let tb = target.borders.clone().unwrap_or_default();
+    let mut b = BordersSpec::default();
+    for e in 0..5 {
+        let te = edge_mut(&mut tb.clone(), e).clone();
+        *edge_mut(&mut b, e) = EdgeSpec { style: Some(if te.style == Some(2) { 3 } else { 2 }), color: flip_color(&te.color, v.wrapping_add(e as u8)) };
+    }
+    b.diag_up = Some(!tb.diag_up.unwrap_or(false));
+    b.diag_down = Some(!tb.diag_down.unwrap_or(false));
+    p.borders = Some(b);
+    let ta = target.align.clone().unwrap_or_default();
+    p.align = Some(AlignSpec {
+        horizontal: Some(if ta.horizontal == Some(2) { 3 } else { 2 }),
+        vertical: Some(if ta.vertical == Some(1) { 2 } else { 1 }),
+        wrap: Some(!ta.wrap.unwrap_or(false)),
+        rotation: Some(if ta.rotation == Some(45) { 90 } else { 45 }),
+    });
+    p.numfmt = Some(match &target.numfmt {
+        Some(NumFmtSpec::Code(c)) if !builtin_table().iter().any(|(_, b)| b == c) => NumFmtSpec::Builtin(if v % 2 == 0 { 14 } else { 2 }),
+        _ => NumFmtSpec::Code("0.000 \"x\"".to_string()),
+    });
+    let tp = target.prot.clone().unwrap_or(ProtSpec { locked: true, hidden: false });
+    p.prot = Some(ProtSpec { locked: !tp.locked, hidden: !tp.hidden });
+    p
+}
+
+/// History for style number `i` of a set, decided by one raw value: half of the styles are
+/// built the plain way, the rest in place: on a fresh style, over a clashing prior, over a
+/// single-attribute neighbour, or over another style of the same set.
+pub fn hist_for(styles: &[StyleSpec], i: usize, raw: u16) -> Hist {
+    let conv = (raw >> 8) as u8;
+    let v = (raw >> 4) as u8;
+    match raw % 10 {
+        0..=4 => Hist::Plain,
+        5 => Hist::InPlace,
+        6 | 7 => Hist::Over { prior: Box::new(clash(&styles[i], v)), conv: if raw % 10 == 7 { conv } else { 0 } },
+        8 => Hist::Over { prior: Box::new(mutate(&styles[i], crate::engine::pick_idx(raw.wrapping_mul(2654), MUT_ATTRS), v)), conv: conv & 0xF0 },
+        _ => Hist::Over { prior: Box::new(styles[crate::engine::pick_idx(raw.wrapping_mul(40503), styles.len())].clone()), conv },
+    }
+}
+
+// ---------------------------------------------------------------------------------------
 // projection
 
 pub const ATTRS: [&str; 29] = [
